@@ -492,6 +492,9 @@ def c20(k, ctx):
                 "files, encode with 0-3 words, trailing partial words, with/without puncturing and non-fitting patterns, ber at -4..-2 dB with/without the outer code and 8PSK; "
                 "non-trivial = distinct argument vectors")
     ctx.tlc_mc("MC_Cli")
+    ctx.tlc_mc("MC_EncodeStream", "MC_EncodeStream.cfg", workers=2)                          # the encode loop: exact output, prefix property, termination
+    ctx.tlc_mc("MC_EncodeStream", "MC_EncodeStream_neg.cfg", workers=2, expect_violation=True)   # defect D8: whole buffer written
+    ctx.tlc_mc("MC_EncodeStream", "MC_EncodeStream_neg2.cfg", workers=2, expect_violation=True)  # information word not reset between words
     cli = k.build_cli()
     ctx.vh("gen", "i2s", timeout=3000, env={"VH_CLI": cli})
     recs, rej = ctx.validate("Trace_C20", timeout=3000)
